@@ -130,16 +130,25 @@ NAME_TYPES = {        # symbolic level name -> the real pandas level name
     "tuple": lambda sym: ("t", sym),
     "float": lambda sym: 2.5 + sum((i + 1) * ord(c) for i, c in enumerate(sym)) % 89,     # (distinct for x, x2, y, y2, …)
     "bytes": lambda sym: sym.encode(),
+    "one": lambda sym: 1,
+    "true": lambda sym: True,          # True == 1 == 1.0 and False == 0 == 0.0: ONE level name for pandas' own look-up
+    "float1": lambda sym: 1.0,
+    "false": lambda sym: False,
 }
+EQUAL_NAME_PAIRS = [("one", "true"), ("true", "one"), ("one", "float1"), ("zero", "false"), ("false", "float0"), ("float0", "zero")]
 
 
-def real_name(case, sym):
+def real_name(case, sym, side=None):
     """The pandas level name of the symbolic name `sym` (the Lean model and the canonical forms use the symbolic
     names: names are opaque labels for the model).  case["name_types"] maps a symbolic name to a kind of
-    non-string name (falsy but not None: 0, '', 0.0; tuples, floats, bytes); default: the string itself."""
+    non-string name (falsy but not None: 0, '', 0.0; tuples, floats, bytes); default: the string itself.
+    case["name_types_prm"] (optional) gives the PARAMETER's spelling of a shared name where it differs in type but
+    compares equal (1 / True / 1.0; 0 / False / 0.0): one level for pandas and for the Broadcaster."""
     if sym is None:
         return None
     t = case.get("name_types", {}).get(sym)
+    if side == "p":
+        t = case.get("name_types_prm", {}).get(sym, t)
     return sym if t is None else NAME_TYPES[t](sym)
 
 
@@ -151,9 +160,10 @@ def sym_name(case, real):
         for sym in op.get("names", []):
             if sym is None:
                 continue
-            r = real_name(case, sym)
-            if type(r) is type(real) and r == real:
-                return sym
+            for side in ("o", "p"):
+                r = real_name(case, sym, side)
+                if type(r) is type(real) and r == real:
+                    return sym
     return f"<{real!r}>"
 
 
@@ -165,7 +175,10 @@ def level_labels(case, side, op, pos):
         rl = case.get("rec_labels", "str")
         f = {"str": lambda c: f"f{c}", "int": lambda c: 10 * (c + 1), "float": lambda c: 0.25 + 0.5 * c,
              "tuple": lambda c: ("t", c)}[rl]
-        return [f(k[pos]) for k in op["keys"]]
+        labs = [f(k[pos]) for k in op["keys"]]
+        if case.get("rec_dup") and len(labs) > 1:
+            labs[1] = labs[0]       # a DUPLICATED entry label (as in a Series taken out of a frame with repeated columns)
+        return labs
     if name is None:
         return [anon_label(side, pos, k[pos], case.get("anon_plain")) for k in op["keys"]]
     lt = case.get("labels", {}).get(name, "int")
@@ -196,7 +209,11 @@ def build(case, side, index=None):
         one["obj" if side == "o" else "prm"]["keys"] = [[0] * len(names)]
         return build(one, side).iloc[:0]
     arrays = [level_labels(case, side, op, p) for p in range(len(names))]
-    rnames = [real_name(case, nm) for nm in names]
+    if side == "o" and case.get("rec_dup") and is_record(case) and len(names) > 1 and n > 1:
+        arrays = [list(a) for a in arrays]
+        for a in arrays:
+            a[1] = a[0]             # a duplicated entry (all levels) of a multi-level record
+    rnames = [real_name(case, nm, side) for nm in names]
     if index is not None:
         idx = index
     elif len(names) == 1 and not op.get("mi1"):
@@ -460,7 +477,10 @@ def run_impl(case):
     try:
         with warnings.catch_warnings():
             warnings.simplefilter("ignore")
-            p, o = Broadcaster(obj).broadcast(prm)
+            if case.get("droplevel"):
+                p, o = Broadcaster(obj).broadcast(prm, droplevel=[real_name(case, n, "o") for n in case["droplevel"]])
+            else:
+                p, o = Broadcaster(obj).broadcast(prm)
     except Exception as e:
         r.error = type(e).__name__
         r.errmsg = str(e)[:200]
@@ -565,6 +585,22 @@ def canon_result(case, r):
             rp = [plain_id(case, v) for v in rp]
         out[k] = (ro, rp)
     return out
+
+
+def unsorted_levels(x):
+    """a description if a level of the MultiIndex of the returned object is not sorted, else None"""
+    idx = getattr(x, "index", None)
+    if not isinstance(idx, pd.MultiIndex):
+        return None
+    for name, lvl in zip(idx.names, idx.levels):
+        try:
+            ok = bool(lvl.is_monotonic_increasing)
+        except Exception:
+            continue
+        if not ok and len(lvl) > 1:
+            return (f"level {name!r} of the returned MultiIndex is held unsorted: {list(lvl)[:5]} (pandas keeps levels sorted and "
+                    "derives the sortedness of an index from its codes)")
+    return None
 
 
 def astuple(x):
@@ -814,6 +850,8 @@ def gen_nonpandas_case(rng):
             obj["mi1"] = True
         labels = {nm: rng.choice(LTYPES) for nm in names if nm is not None}
         case = {"obj": obj, "labels": labels, "cells": cells, "rec_labels": rng.choice(["str", "str", "int", "float", "tuple"])}
+        if n > 1 and rng.random() < 0.15:
+            case["rec_dup"] = True
         if rng.random() < 0.4:
             case["prm"] = gen_scalar(rng)
         else:
@@ -1020,6 +1058,24 @@ def pending_class(case, r):
     return None
 
 
+def record_dup_defect(case, r):
+    """The defective answer of bc2cb7f for a record with a duplicated entry label against an array: `df[label] = value`
+    assigns to ALL columns of that label, so the first of the duplicated entries carries the value of the last.  True iff
+    the returned frame is exactly that."""
+    if not (case.get("rec_dup") and is_record(case) and case["prm"]["kind"] == "array") or r.error:
+        return False
+    o = r.res_obj
+    vals = list(np.asarray(r.obj0, dtype=float))
+    if isinstance(o, pd.DataFrame) and o.shape[1] > len(vals) and isinstance(r.obj0.index[0], tuple) and \
+            set(o.columns) == set(r.obj0.index) and sum(1 for c in o.columns if c != r.obj0.index[0]) == len(vals) - 2:
+        return True         # (tuple labels: the assignment to the duplicated label adds further columns of that label)
+    if not isinstance(o, pd.DataFrame) or len(vals) < 2 or o.shape[1] != len(vals):
+        return False
+    vals[0] = vals[1]
+    got = np.asarray(o, dtype=float)
+    return bool(len(got) == len(case["prm"]["vals"]) and all(same_value(a, b) for row in got for a, b in zip(row, vals)))
+
+
 REPAIRED_INT_LEVEL_NAMES = True
 
 
@@ -1220,7 +1276,7 @@ def scalar_goodman_range(amp, mean, M, M2, R_goal):
     return v
 
 
-MATRIX_HAIGH = ("one", "per-element", "extra-level")
+MATRIX_HAIGH = ("one", "per-element", "extra-level", "per-element-lacking", "per-element-exceeding")
 MATRIX_ROWS = ("sorted", "shuffled", "descending", "subset-shuffled")
 
 
@@ -1272,9 +1328,14 @@ def build_matrix(case):
     if case["haigh"] == "one":
         i = r.randrange(4)
         haigh = pd.Series({"M": Ms[i], "M2": M2s[i]})
-    elif case["haigh"] == "per-element":
-        # (every element of the matrix has a diagram row and vice versa: "every shared-level key present in both")
+    elif case["haigh"].startswith("per-element"):
+        # (plain: every element of the matrix has a diagram row and vice versa: "every shared-level key present in both";
+        #  -lacking: the first element of the matrix has no diagram; -exceeding: a diagram for an element 99 the matrix has not)
         order_h = [e for e in elements if e in set(out.index.get_level_values("element_id"))]
+        if case["haigh"] == "per-element-lacking":
+            order_h = order_h[1:] or [99]
+        if case["haigh"] == "per-element-exceeding":
+            order_h = order_h + [99]
         r.shuffle(order_h)
         picks = [r.randrange(4) for _ in order_h]
         haigh = pd.DataFrame({"M": [Ms[i] for i in picks], "M2": [M2s[i] for i in picks]}, index=pd.Index(order_h, name="element_id"))
@@ -1297,16 +1358,42 @@ def matrix_oracle(case):
     what = (f"meanstress_transform.fkm_goodman ({case['form']} matrix, levels {list(mat.index.names)}, rows {case['rows']}, "
             f"Haigh {case['haigh']}, R_goal {R_goal})")
     mat0, haigh0 = mat.copy(deep=True), haigh.copy(deep=True)
+    raised = None
     try:
         with warnings.catch_warnings():
             warnings.simplefilter("ignore")
             res = mat.meanstress_transform.fkm_goodman(haigh, R_goal).to_pandas()
     except Exception as e:
-        return (f"{what} raised {type(e).__name__}: {str(e)[:120]}", "consumer-raises")
+        raised = e
     for name, b, a in (("matrix", mat0, mat), ("Haigh parameter", haigh0, haigh)):
         u = unchanged(b, a)
         if u:
             return (f"{what} modified the {name} ({u})", "consumer-inputs-modified")
+    if case["haigh"] == "per-element-lacking":
+        # an element without a Haigh diagram has no scalar result: an error, or no / NaN cycles for that element - never its
+        # cycles under the transformed label
+        if raised is not None:
+            return None
+        bare = [e for e in set(mat0.index.get_level_values("element_id")) if e not in set(haigh0.index)]
+        lev = res.index.names.index("element_id") if "element_id" in res.index.names else None
+        held = 0.0 if lev is None else float(np.nansum([v for k, v in zip(res.index, res.to_numpy()) if k[lev] in bare]))
+        if held > 0:
+            return (f"{what}: the elements {bare} have no Haigh diagram, yet the result books {held} cycles for them (their ranges "
+                    "untransformed) under the target R", "matrix-element-without-haigh-diagram")
+        return None
+    if raised is not None:
+        d = f"{what} raised {type(raised).__name__}: {str(raised)[:120]}"
+        if case["haigh"] == "per-element-exceeding" and isinstance(raised, IndexError):
+            return (d + " (the Haigh frame has a diagram for an element the matrix has not)", "droplevel-partnerless-parameter-row")
+        return (d, "consumer-raises")
+    if case["haigh"] == "per-element-exceeding":
+        # the surplus diagram belongs to no cycle: the result is the one without it (no cycles for that element)
+        haigh0 = haigh0.loc[[e for e in haigh0.index if e in set(mat0.index.get_level_values("element_id"))]]
+        lev = res.index.names.index("element_id")
+        extra = float(np.nansum([v for k, v in zip(res.index, res.to_numpy()) if k[lev] == 99]))
+        if extra > 0:
+            return (f"{what}: {extra} cycles are booked for element 99, which the matrix has not", "consumer-value")
+        res = res[[k[lev] != 99 for k in res.index]]
     # ---- the groups of the result: the matrix' own further levels and the diagram's levels
     group_names = [n for n in ("element_id", "material") if n in mat0.index.names or
                    (isinstance(haigh0, pd.DataFrame) and n in haigh0.index.names)]
@@ -1755,13 +1842,21 @@ class C13(Prop):
         "cross join, object's order for scalars / arrays, the common order for identical indices); keys within an operand "
         "are distinct (the quantifier speaks of key sets; pandas refuses to join duplicate keys, the theorems carry "
         "Tbl.KeysNodup); an operand without rows is generated on the exhaustive layouts only",
-        "C13: `droplevel` (HaighDiagram.transform) is not in the model; it is observed through the consumer oracle "
-        "haigh-transform only",
-        "C13: the model describes the code after the repairs, all committed in /repo: b3ce47d (align-equal-values, F-6), 83030b7 "
-        "(outer join with NaN levels), 190635a (one-level MultiIndex), bc2cb7f (record entries with any label), c67dac2 (operands and "
-        "shared Index objects untouched), 20f8491 (level names that are not strings); no C13 finding class is open in "
-        "KNOWN_FINDINGS.jsonl, so the tolerance of the correspondence for the unrepaired exception of an OPEN class "
-        "(harness/c13.py: PENDING) is inert today",
+        "C13: `droplevel` (HaighDiagram.transform) is not in the model; it is observed on the real code by the oracle: "
+        "broadcast(prm, droplevel=…) returns the plain broadcast's object and one parameter row per key over the remaining levels "
+        "(harness/c13.py: _oracle_droplevel), and through the consumer oracles haigh-transform and matrix",
+        "C13: an unnamed level is never shared, also when both operands carry the IDENTICAL partly unnamed MultiIndex (what "
+        "pd.concat({...}, names=['element_id']) makes) as two Index objects: join on the named levels, cross join on the unnamed "
+        "ones (since b3ce47d; before, pandas' align took the equal coded indices row by row).  Level names that compare equal "
+        "(1 / True / 1.0, 0 / False / 0.0) are ONE level, as for pandas' own look-up of a level by name; the result carries the "
+        "parameter's spelling.  Both readings are generated and are what the model says (fresh name per unnamed level; symbolic names)",
+        "C13: a record's entry labels may repeat (they are fields, not keys): the record is positional in the model",
+        "C13: the model describes the code after the repairs committed in /repo (b3ce47d align-equal-values, 83030b7 outer join "
+        "with NaN levels, 190635a one-level MultiIndex, bc2cb7f record entries with any label, c67dac2 operands untouched, 20f8491 "
+        "level names that are not strings) and after the follow-up repairs tools/fixes/C13-record-frame-by-position.diff, "
+        "C13-restore-index-from-values.diff, C13-haigh-transform-diagram-coverage.diff; while the class of an uncommitted repair is "
+        "open in KNOWN_FINDINGS.jsonl the correspondence tolerates exactly the unrepaired answer on exactly the cases of that class "
+        "(harness/c13.py: PENDING, record_dup_defect)",
         "C13: exhaustive = all ordered key lists with <= 2 (thorough: 3) rows over 2 codes on the listed level-name layouts "
         "only; everything else is sampled",
     ]
@@ -1837,7 +1932,47 @@ class C13(Prop):
                     if layout(case) == "overlapping" and not shared_keys_present(case):
                         case["outside"] = True
                     yield case
+        # a Series object with a DUPLICATED entry label against arrays / scalars
+        for rl in ("str", "int"):
+            for n in (2, 3):
+                for prm in ({"kind": "array", "vals": [4, 5], "np": False}, {"kind": "array", "vals": [7], "np": True}, {"kind": "scalar", "v": 3}):
+                    yield {"obj": {"kind": "series", "names": ["x"], "keys": [[i] for i in range(n)], "ncols": 1},
+                           "prm": dict(prm), "labels": {"x": "int"}, "rec_labels": rl, "cells": "frac", "rec_dup": True}
+        yield {"obj": {"kind": "series", "names": ["x", "y"], "keys": [[0, 1], [1, 0], [1, 1]], "ncols": 1},
+               "prm": {"kind": "array", "vals": [4, 5], "np": True}, "labels": {"x": "str", "y": "int"}, "cells": "frac", "rec_dup": True}
+        # both operands with the SAME partly unnamed MultiIndex (what pd.concat({...}, names=['element_id']) makes), as two
+        # distinct Index objects: an unnamed level is never shared, so the result is the join on the named levels and the
+        # cross join on the unnamed ones (model: an unnamed level is a fresh name per operand)
+        for names in (["x", None], [None, "x"], ["x", None, "z"], [None, None]):
+            for keys in ([[0] * len(names), [1] * len(names)], [[0] * len(names), [0] * (len(names) - 1) + [1]],
+                         [[1] + [0] * (len(names) - 1), [0] * len(names), [1] * len(names)]):
+                yield {"obj": {"kind": "frame", "names": list(names), "keys": [list(k) for k in keys], "ncols": 2},
+                       "prm": {"kind": "series", "names": list(names), "keys": [list(k) for k in keys], "ncols": 1},
+                       "labels": {"x": "str", "z": "int"}, "anon_plain": True}
+        # a shared level whose NAME is spelt 1 on one operand and True (or 1.0) on the other, 0 / False / 0.0: one level
+        for a, b in EQUAL_NAME_PAIRS:
+            for on, pn in ((["z"], ["z"]), (["x", "z"], ["z"]), (["x", "z"], ["y", "z"]), (["z", "x"], ["z"])):
+                yield {"obj": {"kind": "frame", "names": on, "keys": [[0] * len(on), [1] * len(on)], "ncols": 1},
+                       "prm": {"kind": "series", "names": pn, "keys": [[1] * len(pn), [0] * len(pn)], "ncols": 1},
+                       "labels": {}, "name_types": {"z": a}, "name_types_prm": {"z": b}}
+        # `droplevel` (levels of the object only), with and without partner-less rows on either side
+        for on, pn, dl in ((["x", "r"], ["x", "c"], ["r"]), (["m", "x", "r"], ["x", "c"], ["r"]), (["x", "r"], ["c"], ["r"]),
+                           (["x", "r"], ["x"], ["r"]), (["r", "x"], ["c", "x"], ["r"]), (["m", "x", "r"], ["x", "c"], ["r", "m"])):
+            for ok, pk in (("full", "full"), ("full", "more"), ("more", "full"), ("full", "other")):
+                xo = [0, 1] + ([2] if ok == "more" else [])
+                xp = [0, 1] + ([2] if pk == "more" else []) if pk != "other" else [1, 3]
+                okeys = [[{"x": x, "r": rr, "m": x % 2}[n] for n in on] for x in xo for rr in (0, 1)]
+                pkeys = [[{"x": x, "c": c}[n] for n in pn] for x in (xp if "x" in pn else [0]) for c in ((1, 0) if "c" in pn else (0,))]
+                case = {"obj": {"kind": "series", "names": on, "keys": okeys, "ncols": 1},
+                        "prm": {"kind": "frame", "names": pn, "keys": pkeys, "ncols": 2},
+                        "labels": {"x": "rev", "r": "str"}, "cells": "frac", "droplevel": dl}
+                yield case
         # rainflow matrix x Haigh diagram through series.meanstress_transform.fkm_goodman
+        for j, (form, rows, hk) in enumerate((("ft", "sorted", "per-element-lacking"), ("rm", "shuffled", "per-element-lacking"),
+                                              ("ft", "sorted", "per-element-exceeding"), ("rm", "descending", "per-element-exceeding"),
+                                              ("ft", "shuffled", "per-element-exceeding"))):
+            yield {"kind": "matrix", "form": form, "elem": True, "n_el": 2 + j % 2, "nb": 2, "order": j, "rows": rows, "haigh": hk,
+                   "n_h": 1, "R_goal": (-1.0, 0.0)[j % 2], "seed": 2000 + j}
         i = 0
         for form in ("ft", "rm"):
             for rows in ("sorted", "shuffled", "descending"):
@@ -1863,6 +1998,13 @@ class C13(Prop):
                 if not shared_keys_present(c):
                     c["outside"] = True     # outside the quantifier: correspondence only
                 yield c
+                own = [n for n in c["obj"]["names"] if n is not None and n not in c["prm"]["names"]]
+                if own and rng.random() < 0.5:       # the same pair through `droplevel` (oracle only)
+                    d = copy.deepcopy(c)
+                    d["droplevel"] = [rng.choice(own)]
+                    d.pop("name_types", None)
+                    d.pop("anon_plain", None)
+                    yield d
             elif u < 0.88:
                 yield gen_nonpandas_case(rng)
             elif u < 0.93:
@@ -1881,6 +2023,8 @@ class C13(Prop):
 
     # -------------------------------------------------------------- correspondence
     def model_lines(self, case):
+        if case.get("droplevel"):
+            return []       # `droplevel` is not in the model: oracle only
         if case.get("kind") in CONSUMER_KINDS or int_name_not_first(case):
             return []       # (consumer kinds: oracle only.  int_name_not_first always returns False since the finding
             #                  int-level-name-as-position is fixed by 20f8491: that part of the condition is dead)
@@ -1898,7 +2042,7 @@ class C13(Prop):
         return r
 
     def impl_lines(self, case):
-        if case.get("kind") in CONSUMER_KINDS:
+        if case.get("kind") in CONSUMER_KINDS or case.get("droplevel"):
             return []
         if int_name_not_first(case):        # always False since 20f8491 (see int_name_not_first): branch and stat are dead
             self.stats["int_name_not_first_cases_oracle_only"] = self.stats.get("int_name_not_first_cases_oracle_only", 0) + 1
@@ -1924,6 +2068,10 @@ class C13(Prop):
         if pk in self._open and impl_out == ["error " + r.error] * 3:
             t = self.stats.setdefault("correspondence_pending_repair", {})
             t[pk] = t.get(pk, 0) + 1
+            return None
+        if "record-duplicate-labels-overwritten" in self._open and record_dup_defect(case, r):
+            t = self.stats.setdefault("correspondence_pending_repair", {})
+            t["record-duplicate-labels-overwritten"] = t.get("record-duplicate-labels-overwritten", 0) + 1
             return None
         return d
 
@@ -1977,7 +2125,11 @@ class C13(Prop):
         if case.get("kind") == "matrix":
             k = f"matrix-{case['form']}-{'elem' if case['elem'] else 'noelem'}-{case['rows']}-{case['haigh']}"
             self.stats["consumer_cases"][k] = self.stats["consumer_cases"].get(k, 0) + 1
-            return matrix_oracle(case)
+            res = matrix_oracle(case)
+            if res is not None and res[1] in ("matrix-element-without-haigh-diagram", "droplevel-partnerless-parameter-row") \
+                    and self.known(res[1], res[0]):
+                return None
+            return res
         if case.get("kind") == "haigh-five":
             self.stats["consumer_cases"]["haigh-five"] = self.stats["consumer_cases"].get("haigh-five", 0) + 1
             return haigh_five_oracle(case)
@@ -2002,6 +2154,66 @@ class C13(Prop):
                         "distinct Index objects are aligned correctly): " + res[0], "shared-index-identity")
         return res
 
+    def _oracle_droplevel(self, case, r):
+        """`Broadcaster.broadcast(parameter, droplevel=[levels of the object])` (HaighDiagram.transform is the user): the
+        returned OBJECT is the one of the plain broadcast; the returned PARAMETER is not aligned to it on purpose: it has
+        one row per key over the remaining levels, with the parameter's cells at that key.  Rows whose key lacks a remaining
+        level (partner-less rows of the other operand) are left out of the parameter."""
+        plain = {k: v for k, v in case.items() if k != "droplevel"}
+        rp = self._run(plain)
+        if rp.error:
+            return None         # the plain call is judged by its own case
+        if r.error:
+            d = (f"broadcast(…, droplevel={case['droplevel']}) raised {r.error}: {r.errmsg[:80]} where the plain broadcast returns "
+                 f"{len(rp.res_obj)} rows ({layout(case)})")
+            if r.error == "IndexError" and nan_level_rows(case):
+                if not self.known("droplevel-partnerless-parameter-row", d):
+                    return (d, "droplevel-partnerless-parameter-row")
+                return None
+            return (d, "droplevel-raises")
+        o, p = r.res_obj, r.res_prm
+        co = canon_result(plain, rp)
+        if isinstance(co, str):
+            return None
+        # the object part
+        try:
+            okeys = decode_index(case, o.index)
+        except Exception as e:
+            return (f"droplevel: the returned object's index cannot be read: {e}", "droplevel-object")
+        if okeys != list(co) and set(okeys) != set(co):
+            return (f"droplevel={case['droplevel']}: the returned object has keys {[sk(k) for k in okeys[:4]]}, the plain broadcast "
+                    f"{[sk(k) for k in list(co)[:4]]}", "droplevel-object")
+        if not np.array_equal(np.asarray(o, dtype=float), np.asarray(rp.res_obj, dtype=float), equal_nan=True):
+            return (f"droplevel={case['droplevel']}: the returned object's cells differ from the plain broadcast's", "droplevel-object")
+        # the parameter part
+        dropped = set(case["droplevel"])
+        (on, _), prm = tables(case)
+        pn = prm[1]
+        pid_ = {frozenset(zip(pn, k)): row for k, row in prm[2]}
+        pval = value_rows(case, "p")
+        want = {}
+        for key, (_, rp_) in co.items():
+            rest = frozenset((n, v) for n, v in key if n not in dropped)
+            if any(v is None for _, v in rest):
+                continue
+            want.setdefault(rest, rp_)
+        want_names = [n for n in o.index.names if n is None or sym_name(case, n) not in dropped]
+        if sorted(map(repr, p.index.names)) != sorted(map(repr, want_names)):
+            return (f"droplevel={case['droplevel']}: the returned parameter has the levels {list(p.index.names)}, the object {list(o.index.names)}", "droplevel-parameter")
+        try:
+            pkeys = decode_index(case, p.index)
+        except Exception as e:
+            return (f"droplevel: the returned parameter's index cannot be read: {e}", "droplevel-parameter")
+        if len(set(pkeys)) != len(pkeys) or set(pkeys) != set(want):
+            return (f"droplevel={case['droplevel']}: the returned parameter has the keys {[sk(k) for k in pkeys[:5]]} ({len(pkeys)}), expected one "
+                    f"row for each of {[sk(k) for k in list(want)[:5]]} ({len(want)})", "droplevel-parameter")
+        for k, row in zip(pkeys, rows_of(p)):
+            kp = frozenset((n, v) for n, v in k if n in pn)
+            got = to_ids(row, pid_.get(kp), pval.get(kp))
+            if got != want[k]:
+                return (f"droplevel={case['droplevel']}: parameter row {sk(k)} holds {got}, the original {want[k]}", "droplevel-parameter")
+        return None
+
     def _oracle_table(self, case):
         r = self._run(case)
         if r.error:
@@ -2018,6 +2230,8 @@ class C13(Prop):
                 return (f"the {name} was modified by broadcast ({u}): index now {list(a.index)[:4]} names {list(a.index.names)}"
                         + (f"; the call raised {r.error}" if r.error else ""),
                         "inputs-modified-after-raise" if r.error else "inputs-modified")
+        if case.get("droplevel"):
+            return self._oracle_droplevel(case, r)
         if case.get("outside"):     # outside the quantifier: raising is fine, the operands above must still be untouched
             return None
         if isinstance(ref, tuple) and ref[0] == "error":     # the documented ValueError for arrays of a wrong length
@@ -2046,22 +2260,41 @@ class C13(Prop):
                                                         for ta, tb in zip(map(astuple, o.index), map(astuple, p.index))
                                                         for a, b in zip(ta, tb)):
                 return (f"the returned objects have different indices: object {list(o.index)[:5]}, parameter {list(p.index)[:5]} ({layout(case)})", klass_mis)
+        # the levels of a returned MultiIndex are sorted, as pandas builds them (slicing and the sortedness pandas derives
+        # from the codes rely on it: with unsorted levels `o.loc['a':'b']` silently selects nothing)
+        d = unsorted_levels(o) or unsorted_levels(p)
+        if d and not self.known("result-index-levels-unsorted", d):
+            return (d, "result-index-levels-unsorted")
         # the result's level names are the operands' level names (0 and '' are names, only None is "unnamed")
         if case["prm"]["kind"] in ("series", "frame") and isinstance(o, (pd.Series, pd.DataFrame)):
-            want = [] if is_record(case) else [real_name(case, n) for n in case["obj"]["names"]]
-            want = want + [real_name(case, n) for n in case["prm"]["names"]]
+            want = [] if is_record(case) else [real_name(case, n, "o") for n in case["obj"]["names"]]
+            want = want + [real_name(case, n, "p") for n in case["prm"]["names"]]
             wantset = {(type(n).__name__, repr(n)) for n in want if n is not None}
             gotset = {(type(n).__name__, repr(n)) for n in o.index.names if n is not None}
             n_none = sum(1 for n in want if n is None)
+            if case.get("name_types_prm"):
+                # a shared name spelt 1 on one operand and True on the other is ONE level; the result carries either spelling
+                eq = lambda a, b: a is not None and b is not None and a == b and isinstance(a, str) == isinstance(b, str)
+                ok = all(sum(1 for g in o.index.names if eq(g, w)) == 1 for w in want if w is not None) and \
+                    all(any(eq(g, w) for w in want) for g in o.index.names if g is not None)
+                if ok:
+                    wantset = gotset
             if wantset != gotset or sum(1 for n in o.index.names if n is None) != n_none:
                 return (f"result level names {list(o.index.names)} ({len(o)} rows) are not the operands' level names "
                         f"{[real_name(case, n) for n in case['obj']['names']]} and {[real_name(case, n) for n in case['prm']['names']]} ({layout(case)})",
                         klass_mis if shortcut else "level-names")
         # a record comes back as a frame whose COLUMNS are the record's entries (labels, order, level names)
-        if is_record(case) and isinstance(o, pd.DataFrame):
+        if is_record(case) and isinstance(o, pd.DataFrame) and not record_dup_defect(case, r):
             if list(o.columns) != list(r.obj0.index) or list(o.columns.names) != list(r.obj0.index.names):
                 return (f"the record's entries {list(r.obj0.index)[:4]} came back as columns {list(o.columns)[:4]} "
                         f"(names {list(o.columns.names)})", "record-columns")
+        if record_dup_defect(case, r):
+            d = (f"a Series object with the duplicated entry label {list(r.obj0.index)[0]!r} against an array: the first of the "
+                 f"duplicated entries came back with the value of the last: {list(np.asarray(o, dtype=float)[0])[:4]} instead of "
+                 f"{list(np.asarray(r.obj0, dtype=float))[:4]}")
+            if not self.known("record-duplicate-labels-overwritten", d):
+                return (d, "record-duplicate-labels-overwritten")
+            return None
         c = canon_result(case, r)
         if isinstance(c, str):
             return (f"the returned objects are not aligned: {c} ({layout(case)})", klass_mis)
